@@ -432,8 +432,225 @@ def run_pq(inp):
     return {"bad": bad}
 
 
+# ------------------------------------------------------------------ correspondence: exact-rational histories vs the Lean state machine
+from vlib import q as Q
+
+
+def _riso(rng, n, k=3):
+    """random rational matrix preserving the Minkowski form under the right action (A J A^T = J): product of boosts and rotations"""
+    d = n + 1
+    M = [[F(int(i == j)) for j in range(d)] for i in range(d)]
+
+    def mul(A, B):
+        return [[sum(A[i][k] * B[k][j] for k in range(d)) for j in range(d)] for i in range(d)]
+    for _ in range(k):
+        E = [[F(int(i == j)) for j in range(d)] for i in range(d)]
+        if rng.random() < 0.5 or n < 2:
+            ch, sh, _ = Q.rboost(rng, 3)
+            i = rng.randint(1, n)
+            E[0][0], E[0][i], E[i][0], E[i][i] = ch, sh, sh, ch
+        else:
+            c, s_ = Q.rrot(rng, 3)
+            i, j = rng.sample(range(1, n + 1), 2)
+            E[i][i], E[i][j], E[j][i], E[j][j] = c, -s_, s_, c
+        M = mul(M, E)
+    return M
+
+
+def _rowmul(x, M):
+    d = len(M)
+    return [sum(x[k] * M[k][j] for k in range(d)) for j in range(d)]
+
+
+PYTH = [(F(3, 5), F(4, 5)), (F(5, 13), F(12, 13)), (F(4, 5), F(3, 5)), (F(1), F(0)), (F(0), F(1)), (F(8, 17), F(15, 17))]
+
+
+def _runit(rng, kind, n):
+    """one exact-rational unit of primary data for which every root the library takes is rational"""
+    B = _riso(rng, n, 2)
+    lam = F(rng.randint(1, 4), rng.randint(1, 3))
+    if kind == "point":
+        p = Q.rball(rng, n, F(4, 5), 6)
+        a = sum(x * x for x in p)
+        s = lam * rng.choice([1, -1])
+        return [s * (1 + a)] + [s * 2 * x for x in p]
+    if kind == "polygon":
+        return [[F(1)] + Q.rball(rng, n, F(9, 10), 8) for _ in range(3)]
+    e0 = [F(1)] + [F(0)] * n
+    c, s_ = rng.choice(PYTH)
+    rad = F(rng.randint(1, 4), 5)
+    w = [F(0), rad * c, rad * s_] + [F(0)] * (n - 2)
+    if kind == "segment":
+        x1 = [F(1)] + w[1:]                 # Klein point with rational norm
+        mu = F(rng.randint(1, 3), rng.randint(1, 2))
+        return [[lam * t for t in _rowmul(x1, B)], [mu * t for t in _rowmul(e0, B)]]
+    if kind == "tangent":
+        nu = F(rng.randint(-2, 2), 2)
+        v = [w[k] + nu * e0[k] for k in range(n + 1)]
+        return [[lam * t for t in _rowmul(e0, B)], _rowmul(v, B)]
+    raise ValueError(kind)
+
+
+def _rcomp(rng, kind, shape, n):
+    cnt = int(np.prod(shape)) if shape else 1
+    units = [_runit(rng, kind, n) for _ in range(cnt)]
+    flat = []
+    for u in units:
+        if kind == "point":
+            flat += u
+        else:
+            for row in u:
+                flat += row
+    ushape = [n + 1] if kind == "point" else [len(units[0]), n + 1]
+    return N.enc_q(list(shape) + ushape, flat)
+
+
+CORR_OPS = ["copy", "apply", "reshape", "flatten", "index", "setitem", "stack", "combine", "astype"]
+CORR_Q = {"point": ["hyperboloid", "origin_to", "coords"], "polygon": ["coords"], "segment": ["circle_parameters", "coords"],
+          "tangent": ["normalized", "tangent_origin_to", "coords"]}
+
+
+def gen_corr(rng, n):
+    for c in range(n):
+        kind = ["polygon", "tangent", "segment", "point"][c % 4]
+        dim = 2
+        shape = rng.choice(HSHAPES)
+        ops = []
+        cur = list(shape)
+        for _ in range(rng.randint(1, 6)):
+            op = rng.choice(CORR_OPS)
+            tot = int(np.prod(cur)) if cur else 1
+            if op == "apply":
+                A = _riso(rng, dim, 2)
+                ops.append({"op": "apply", "A": N.enc_q([dim + 1, dim + 1], [x for r_ in A for x in r_])})
+            elif op == "reshape":
+                cands = [[tot], [1, tot], [tot, 1]] + [[a, tot // a] for a in (2, 3) if tot % a == 0]
+                cur = rng.choice(cands)
+                ops.append({"op": "reshape", "s": cur})
+            elif op == "flatten":
+                cur = [tot]
+                ops.append({"op": "flatten"})
+            elif op == "index":
+                if not cur:
+                    continue
+                k = rng.randrange(cur[0])
+                cur = cur[1:]
+                ops.append({"op": "index", "k": k})
+            elif op == "setitem":
+                if not cur:
+                    continue
+                ops.append({"op": "setitem", "k": rng.randrange(cur[0]), "v": _rcomp(rng, kind, cur[1:], dim)})
+            elif op == "stack":
+                m = rng.randint(1, 2)
+                ops.append({"op": "stack", "others": [{"proj": _rcomp(rng, kind, cur, dim)} for _ in range(m)]})
+                cur = [m + 1] + cur
+            elif op == "combine":
+                oshape = rng.choice([cur, [2], []])
+                ops.append({"op": "combine", "others": [{"proj": _rcomp(rng, kind, oshape, dim)}]})
+                cur = [tot + (int(np.prod(oshape)) if oshape else 1)]
+            else:
+                ops.append({"op": op})
+            if rng.random() < 0.5:
+                ops.append({"op": "q", "name": rng.choice(CORR_Q[kind])})
+        yield {"kind": kind, "n": dim, "proj": _rcomp(rng, kind, shape, dim), "ops": ops}
+
+
+_CLS = {"polygon": H.Polygon, "tangent": H.TangentVector, "segment": H.Segment, "point": H.Point}
+
+
+def _state(X):
+    return {"proj": np.asarray(X.proj_data, dtype=float).tolist(), "aux": None if X.aux_data is None else np.asarray(X.aux_data, dtype=float).tolist(),
+            "shape": list(X.shape)}
+
+
+def run_corr(inp):
+    cls = _CLS[inp["kind"]]
+    X = cls(N.dec(inp["proj"]))
+    out = [_state(X)]
+    with warnings.catch_warnings():
+        warnings.simplefilter("ignore")
+        for s in inp["ops"]:
+            op = s["op"]
+            if op == "copy":
+                X = cls(X)
+            elif op == "astype":
+                X = X.astype("float64")
+            elif op == "flatten":
+                X = X.flatten_to_unit()
+            elif op == "apply":
+                X = H.Isometry(N.dec(s["A"])) @ X
+            elif op == "reshape":
+                X = X.reshape(tuple(s["s"]))
+            elif op == "index":
+                X = X[s["k"]]
+            elif op == "setitem":
+                X[s["k"]] = N.dec(s["v"])
+            elif op == "stack":
+                X = cls([X] + [cls(N.dec(o["proj"])) for o in s["others"]])
+            elif op == "combine":
+                X = cls.combine([X] + [cls(N.dec(o["proj"])) for o in s["others"]])
+            elif op == "q":
+                nm = s["name"]
+                if nm == "coords":
+                    X.coords("projective" if inp["kind"] == "tangent" else "klein")
+                elif nm == "hyperboloid":
+                    X.coords("hyperboloid")
+                elif nm == "origin_to":
+                    X.origin_to()
+                elif nm == "normalized":
+                    X.normalized()
+                elif nm == "tangent_origin_to":
+                    X.origin_to()
+                elif nm == "circle_parameters":
+                    X.circle_parameters()
+            out.append(_state(X))
+    return {"states": out}
+
+
+def lean_corr(inp, obs):
+    return [{"op": "c11.run", "kind": inp["kind"], "proj": inp["proj"], "ops": inp["ops"]}]
+
+
+def judge_corr(inp, obs, lr):
+    res = lr[0]
+    kind = inp["kind"]
+    if "err" in res:
+        if res["err"] == "irrational-root":
+            return None if "exc" not in obs else {"expected": "history to run", "observed": obs, "tags": {"exc": obs["exc"], "kind": kind}}
+        if "exc" in obs:
+            return None          # both refuse (e.g. reshape to an impossible shape)
+        return {"expected": res, "observed": "implementation ran", "tags": {"kind": kind, "model_err": res["err"][:40]}}
+    if "exc" in obs:
+        return {"expected": "model ran the history", "observed": obs, "tags": {"kind": kind, "impl_raises": obs["exc"]}, "property_failure": True}
+    ms = res["ok"]
+    if len(ms) != len(obs["states"]):
+        return {"expected": len(ms), "observed": len(obs["states"]), "tags": {"kind": kind, "length": True}}
+    names = ["construct"] + [s["op"] + (":" + s["name"] if s["op"] == "q" else "") for s in inp["ops"]]
+    for k, (m, st) in enumerate(zip(ms, obs["states"])):
+        tag = {"kind": kind, "after": names[k], "step": k}
+        if m["shape"] != st["shape"]:
+            return {"expected": {"shape": m["shape"]}, "observed": {"shape": st["shape"]}, "tags": dict(tag, what="shape")}
+        mp = N.dec(m["proj"])
+        if not O.allclose(st["proj"], mp, 1e-8):
+            return {"expected": {"proj": mp.tolist()}, "observed": {"proj": st["proj"]}, "tags": dict(tag, what="proj")}
+        if (m["aux"] is None) != (st["aux"] is None):
+            return {"expected": {"aux": m["aux"] is not None}, "observed": {"aux": st["aux"] is not None}, "tags": dict(tag, what="aux-presence")}
+        if m["aux"] is not None:
+            ma = N.dec(m["aux"])
+            ia = np.array(st["aux"])
+            ok = ma.shape == ia.shape and (O.allclose(ia, ma, 1e-7) or (kind == "segment" and O.aux_proj_eq(kind, ia, ma, 1e-7)))
+            if not ok:
+                return {"expected": {"aux": ma.tolist()}, "observed": {"aux": st["aux"]}, "tags": dict(tag, what="aux")}
+    return None
+
+
 def clauses():
     return [
+        Clause("history_corr", "corr", gen_corr, run_corr, judge_corr, lean=lean_corr, site="projective.ProjectiveObject operations + in-place queries",
+               budget={"quick": 160, "thorough": 4000},
+               what="exact-rational histories (<= 6 operations interleaved with the in-place queries) on polygons, tangent vectors, segments and points of shapes (), (2,), (2,3): "
+                    "after every step composite shape, proj_data and aux_data of the implementation vs the Lean state machine Obj.step / Obj.afterQuery executed over Q "
+                    "(data chosen so that every square root the library takes is rational)"),
         Clause("history_oracle", "oracle", gen_hist, run_hist, judge_hist, site="projective.ProjectiveObject (set/copy/apply/reshape/flatten/__getitem__/__setitem__/stack/combine/astype) + queries",
                budget={"quick": 270, "thorough": 30000},
                what="histories over {copy, apply, reshape, flatten, index, set item, stack, combine, astype} on polygons, segments, tangent vectors of shapes (), (2,), (2,3) "
